@@ -16,7 +16,9 @@ Streams: policy (regenerated policy table vs. behaviour), exhaustive (all histor
 over 3 expression shapes x 6 mutation kinds on a fixed world), random (histories of <= 25 operations, nesting <= 4, all
 elementary state kinds), viewer (histogram viewer layer state: cached histogram vs a fresh viewer), histstate (one key field changed at a time),
 presentation / profile (ONE viewer state, cache key unchanged, presentation settings -- normalize, cumulative -- assigned between reads: every read equals the read
-of freshly constructed states with the same settings, and a read leaves the cached arrays unchanged), frb (compute_fixed_resolution_buffer between mask requests).
+of freshly constructed states with the same settings, and a read leaves the cached arrays unchanged), frb (compute_fixed_resolution_buffer between mask requests),
+manykeys (140-1100 DISTINCT (selection, data, view) requests between two cache clears, then each kind of mutation, then the requests again, vs fresh objects),
+memoize-live (the live memoize / clear_cache against the program translated from their source, C05.Memo).
 """
 import itertools
 import operator
@@ -39,6 +41,10 @@ TRUSTED = [
     '(functions that modify their own parameters in place), parameters are taken not to be cache entries, values parked in non-cache attributes are not followed; '
     'the row of compute_fixed_resolution_buffer is exempt from the table theorem (its get_mask view is an unhashable tuple of arrays, so the array is not a '
     'cache entry) and is covered by the frb stream instead',
+    'tools/gen/gen_memo.py, memoize translation: the fragment of Python it accepts (assignment to memo / key / result, d[k], d[k] = v, {} , len(d) >= N, try / except '
+    'TypeError | KeyError | AttributeError, if, return, d.clear(), wrapper.__memoize_cache = e, nonlocal memo; anything else aborts) and the object semantics given to it in '
+    'coq/C05/Memo.v (dicts are heap objects, names hold references); tied to the live decorator by the memoize-live stream; clear_mask_caches is compared with one exact '
+    'template (work-list walk calling clear_cache on every class\'s own to_mask)',
 ]
 ASSUMPTIONS = [
     'assigning to an attribute of a subset state, or editing the ROI object it holds in place, does not invalidate memoised masks: '
@@ -1765,6 +1771,347 @@ def stream_frb(R):
                    'the data (the invalid value is written into the array get_mask returned)}, every result compared with freshly constructed objects')
 
 
+# ---- many distinct requests between two cache clears: anything that depends on HOW MANY entries a memo dict holds (a bound, an eviction, a
+#      rebuilt dict) only shows after hundreds of different (state, data, view) keys reached ONE memoised to_mask.  A case fills the caches with
+#      N distinct requests (a few selections read row by row / two rows at a time over an image with many rows, or many selections of one class
+#      on a small table), applies one mutation of each kind the property names, and repeats the requests; optionally a first mutation sits in
+#      the middle of the filling.  Every request after a mutation is compared with a world constructed again from the case seed, the mutations
+#      replayed, the selection constructed anew, first evaluation.
+MK_MUTS = ('update_components', 'update_values', 'replace_component', 'remove_component', 'move_to', 'move_to_part', 'remove_link', 'swap_link')
+MK_SIZES_QUICK = (140, 200, 270, 300, 420, 530, 700, 1100)
+
+
+def mk_params(seed, i, override=None):
+    rng = C1.case_rng(seed, 'manykeys', i)
+    p = {'mode': ('rows', 'states')[i % 2], 'mut': MK_MUTS[(i // 2) % len(MK_MUTS)], 'n': MK_SIZES_QUICK[(i // 16 + i) % len(MK_SIZES_QUICK)],
+         'shape_kind': rng.randrange(5), 'form': rng.randrange(4), 'mid': rng.choice([None, None, 'update_components', 'move_to', 'replace_component']),
+         'salt': rng.randrange(1000)}
+    if override:
+        p.update(override)
+    return p
+
+
+class MKWorld:
+    """deterministic from (seed, i, params)"""
+
+    def __init__(self, seed, i, p):
+        from glue.core import Data, DataCollection
+        from glue.core.component_link import ComponentLink
+        from glue.core import subset as S
+        rng = C1.case_rng(seed, 'manykeys', i, 'world')
+        n = p['n']
+        rows = p['mode'] == 'rows'
+        self.p = p
+        nsel = rng.randint(1, 3) if rows else n
+        nrow = (n + nsel - 1) // nsel if rows else rng.randint(3, 6)
+        shape = (nrow, 2) if rows else (nrow,)
+        size = int(np.prod(shape))
+        vals = lambda: np.array([float(rng.randint(0, 9)) for _ in range(size)]).reshape(shape)
+        self.d = Data(label='d')
+        self.d.add_component(vals(), 'x')
+        self.d.add_component(vals(), 'y')
+        self.e = Data(label='e')
+        self.e.add_component(np.zeros(3), 'u')
+        self.dc = DataCollection([self.d, self.e])
+        x, y, u = self.d.id['x'], self.d.id['y'], self.e.id['u']
+        self.linkA = ComponentLink([x], u, using=same_value)
+        self.linkB = ComponentLink([x], u, using=times_ten)
+        linked = p['mut'] in ('remove_link', 'swap_link')
+        if linked:
+            self.dc.add_link(self.linkA)
+        att = u if linked else x
+        self.sels = []
+        kind = p['shape_kind']
+        for j in range(nsel):
+            t = float(rng.randint(0, 8)) + 0.5
+            t2 = float(rng.randint(0, 8)) + 0.5
+            rg = S.RangeSubsetState(t - 2.0, t + 2.0, att=x)
+            if p['mut'] in ('move_to', 'move_to_part') or p['mid'] == 'move_to':
+                st = [rg & (att > -100), ~(rg & (y > t2)), S.MultiOrState([rg & (att > t2), att > 8]), (att > t2) | (rg & (y > 1)), rg & (y < t2)][kind]
+            else:
+                st = [att > t, ~(att > t), (att > t) & (y < t2), S.MultiOrState([att > t, y > t2]), (att > t) ^ (y > t2)][kind]
+            self.sels.append(st)
+        self.groups = [self.dc.new_subset_group(subset_state=st) for st in self.sels[:3]] if rows else []
+        self.reqs = []
+        if rows:
+            for r in range(nrow):
+                for j in range(nsel):
+                    v = (r,) if (r + j) % 3 else (slice(r, r + 2),)
+                    self.reqs.append((j, v))
+            self.reqs = self.reqs[:n]
+        else:
+            self.reqs = [(j, None) for j in range(n)]
+
+    def mutate(self, kind, salt):
+        from glue.core import Data
+        d = self.d
+        rng = C1.case_rng(self.p['salt'], 'mk-mut', kind, salt)
+        new = lambda: np.array([float(rng.randint(0, 9)) for _ in range(d.size)]).reshape(d.shape)
+        if kind == 'update_components':
+            d.update_components({d.id['x']: new()})
+        elif kind == 'update_values':
+            src = Data(label='d')
+            src.add_component(new(), 'x')
+            src.add_component(new(), 'y')
+            d.update_values_from_data(src)
+        elif kind == 'replace_component':
+            d.add_component(new(), d.id['x'])
+        elif kind == 'remove_component':
+            d.remove_component(d.id['y'] if salt % 2 else d.id['x'])
+        elif kind in ('move_to', 'move_to_part'):
+            for st in self.sels:
+                part = [l for l in leaves_under(st) if type(l).__name__ == 'RangeSubsetState'][0]
+                ob = st if kind == 'move_to' and st.center() is not None else part
+                ob.move_to(ob.center() + 3.0 + salt % 2)
+        elif kind == 'remove_link':
+            self.dc.remove_link(self.linkA)
+        elif kind == 'swap_link':
+            self.dc.remove_link(self.linkA)
+            self.dc.add_link(self.linkB)
+        else:
+            raise ValueError(kind)
+
+    def request(self, k, form, fresh=False):
+        j, v = self.reqs[k]
+        st = self.sels[j]
+        d = self.d
+        if fresh:
+            try:
+                st = rebuild(st)
+            except Exception as e:
+                return ('err', type(e).__name__)
+            form = 1 if form == 0 else form
+        if form == 0 and j < len(self.groups):
+            sub = [s for s in self.groups[j].subsets if s.data is d][0]
+            return outcome(lambda: sub.to_mask(view=v))
+        if form == 2:
+            return outcome(lambda: st.to_mask(d, view=v))
+        if form == 3 and k % 4 == 0:
+            return outcome(lambda: d.compute_statistic('sum', d.id['y' if self.p['mut'] != 'remove_component' else 'x'], subset_state=st, view=v))
+        return outcome(lambda: d.get_mask(st, view=v))
+
+
+def mk_history(seed, i, p):
+    """returns (first stale request or None, number of requests made)"""
+    C1.clear_all_caches()
+    W = MKWorld(seed, i, p)
+    n = len(W.reqs)
+    muts = []
+    form = p['form']
+
+    def check(idxs):
+        live = [(k, W.request(k, form)) for k in idxs]
+        with isolated_caches():
+            F = MKWorld(seed, i, p)
+            for m in muts:
+                F.mutate(*m)
+            for k, lo in live:
+                fo = F.request(k, form, fresh=True)
+                if not same_outcome(lo, fo):
+                    return ('request %d (selection %d, view %r) after %d distinct requests and mutations %r: live objects give %s, freshly constructed objects give %s'
+                            % (k, W.reqs[k][0], W.reqs[k][1], n, muts, show(lo), show(fo)))
+        return None
+    made = 0
+    half = n // 2 if p['mid'] else n
+    for k in range(half):
+        W.request(k, form)
+    made += half
+    if p['mid']:
+        m = (p['mid'], p['salt'] + 1)
+        W.mutate(*m)
+        muts.append(m)
+        for k in range(half, n):
+            W.request(k, form)
+        made += n - half
+    m = (p['mut'], p['salt'])
+    W.mutate(*m)
+    muts.append(m)
+    step = max(1, n // 150)
+    idxs = sorted(set(list(range(0, n, step)) + list(range(max(0, n - 40), n)) + list(range(max(0, half - 20), half))))
+    bad = check(idxs)
+    made += len(idxs)
+    if bad is None:
+        # a second round: the repeats above re-filled the caches; mutate once more and repeat
+        m2 = ('update_components' if p['mut'] not in ('remove_component',) else 'move_to', p['salt'] + 2)
+        if m2[0] == 'move_to' and not (p['mut'] in ('move_to', 'move_to_part') or p['mid'] == 'move_to'):
+            return None, made
+        if p['mut'] == 'remove_component' and p['salt'] % 2 == 0:
+            return None, made
+        W.mutate(*m2)
+        muts.append(m2)
+        bad = check(idxs[-60:])
+        made += 60
+    return bad, made
+
+
+def mk_isolated(seed, i, p):
+    """the case in a NEW interpreter (the memo dicts are process-global and the behaviour probed here depends on how many entries they have seen:
+    a replay must not depend on what earlier cases of this process left behind).  Returns the failure text, '' or None when the run broke"""
+    import subprocess
+    import sys
+    import json
+    code = ('import json,sys\nfrom harness import c05 as H\nseed,i,p=json.loads(sys.argv[1])\nbad,_=H.mk_history(seed,i,p)\n'
+            'print("MKRESULT "+json.dumps(bad or ""))')
+    try:
+        r = subprocess.run([sys.executable, '-c', code, json.dumps([seed, i, p])], capture_output=True, text=True, timeout=120)
+    except Exception:
+        return None
+    for line in r.stdout.splitlines():
+        if line.startswith('MKRESULT '):
+            return json.loads(line[9:])
+    return None
+
+
+def mk_shrink(seed, i, p):
+    """smallest number of distinct requests for which the case, run on its own, still fails (the failure is taken to be monotone in n)"""
+    if not mk_isolated(seed, i, p):
+        return p, None
+    best = dict(p)
+    q = dict(p, mid=None)
+    if mk_isolated(seed, i, q):
+        best = q
+    lo, hi = 1, best['n']
+    while lo < hi:
+        m = (lo + hi) // 2
+        if mk_isolated(seed, i, dict(best, n=m)):
+            hi = m
+        else:
+            lo = m + 1
+    q = dict(best, n=lo)
+    bad = mk_isolated(seed, i, q)
+    if bad:
+        return q, bad
+    return best, mk_isolated(seed, i, best)
+
+
+def stream_manykeys(R):
+    ncases = R.pick(64, 400)
+    nbad = 0
+    total = 0
+    for i in range(ncases):
+        p = mk_params(R.seed, i)
+        if R.tier != 'quick' and i % 5 == 0:
+            p['n'] = p['n'] * 2 + 50
+        bad, made = mk_history(R.seed, i, p)
+        total += made
+        R.count(('manykeys', R.seed, i), nontrivial=True, stream='manykeys', mk_mode=p['mode'], mk_mut=p['mut'], mk_n=p['n'])
+        if bad and nbad < 3:
+            nbad += 1
+            q, bad2 = mk_shrink(R.seed, i, p) if nbad == 1 else (p, None)
+            R.fail('oracle', {'stream': 'manykeys', 'seed': R.seed, 'i': i, 'params': q}, bad2 or bad)
+        if i < 2:
+            R.sample({'stream': 'manykeys', 'seed': R.seed, 'i': i, 'params': p})
+    C1.clear_all_caches()
+    R.stream('manykeys', cases=ncases, exhaustive=False,
+             bound='%d histories, %d requests in all: N in %r (thorough: up to %d) DISTINCT (selection, data, view) requests to the memoised to_mask functions -- 1-3 selections read '
+                   'row by row / two rows at a time over an image, or N selections of one class on a table; 5 selection shapes (inequality, invert, and, n-ary or, xor, '
+                   'with a range part for move_to), 4 request forms (Subset.to_mask, Data.get_mask, state.to_mask, compute_statistic with a view) -- optionally a mutation '
+                   'half way, then one of %r, then the requests repeated (every one, or 150 spread ones plus the last 40 and the 20 before the middle), then a further mutation and the last 60 again; every repeated request '
+                   'compared with freshly constructed objects' % (ncases, total, MK_SIZES_QUICK, 2 * max(MK_SIZES_QUICK) + 50, MK_MUTS))
+
+
+# ---- the translated memoize / clear_cache (Gen_memo.memoize_wrapper ..., semantics C05.Memo) against the live decorator: histories of calls
+#      (hashable keys, an unhashable positional argument, an unhashable keyword value, the function raising), clear_cache(f), clear_cache of an
+#      undecorated function, and clear_cache on every function (what clear_mask_caches does), short ones and long ones with several hundred
+#      distinct keys between clears.  Compared: every result (value / exception), at the end the number of entries of the dict behind
+#      `__memoize_cache`, and whether the dict in the wrapper's closure IS that dict.
+def stream_memoize_live(R):
+    from glue.core.decorators import memoize, clear_cache
+    ncases = R.pick(90, 600)
+    lines, lives, metas = [], [], []
+    for i in range(ncases):
+        rng = C1.case_rng(R.seed, 'memoize-live', i)
+        nf = rng.randint(1, 3)
+        cur = {'res': None}
+
+        def make():
+            def func(*args, **kwargs):
+                if cur['res'] is None:
+                    raise ValueError('raised by the function')
+                return cur['res']
+            return memoize(func)
+        fs = [make() for _ in range(nf)]
+
+        def undecorated(*a, **k):
+            return None
+        long = i % 3 == 0
+        nops = rng.randint(200, 900) if long else rng.randint(3, 25)
+        nkeys = rng.choice([140, 300, 600]) if long else rng.randint(1, 5)
+        pcall = 0.985 if long else 0.7
+        ops, live = [], []
+        nextval = 1
+        for t in range(nops):
+            if rng.random() < pcall:
+                f = rng.randrange(nf)
+                kid = rng.randrange(nkeys) if not long or rng.random() < 0.3 else min(t, nkeys - 1)
+                u = rng.random()
+                form = 'plain' if u < 0.86 else ('unhash' if u < 0.93 else 'mkraise')
+                res = None if rng.random() < 0.07 else nextval
+                nextval += 1
+                cur['res'] = res
+                try:
+                    if form == 'plain':
+                        v = fs[f](kid)
+                    elif form == 'unhash':
+                        v = fs[f]([kid])
+                    else:
+                        v = fs[f](kid, view=[kid])
+                    live.append(('val', v))
+                except Exception as e:
+                    live.append(('exc', type(e).__name__))
+                ops.append((1, [f, 1 if form == 'mkraise' else 0, 0 if form == 'unhash' else 1, kid, (0, []) if res is None else (1, [res])]))
+            elif rng.random() < 0.5:
+                f = rng.randrange(nf + 1)
+                clear_cache(fs[f] if f < nf else undecorated)
+                ops.append((2, [f]))
+            else:
+                for g in fs:
+                    clear_cache(g)
+                clear_cache(None)
+                ops.append((3, []))
+        final = []
+        for g in fs:
+            handle = getattr(g, '__memoize_cache', None)
+            same = None
+            fv = g.__code__.co_freevars
+            if 'memo' in fv and g.__closure__ is not None:
+                same = g.__closure__[fv.index('memo')].cell_contents is handle
+            final.append((len(handle) if handle is not None else -1, same))
+        lines.append(enc((4, [(nf, []), (0, ops)])))
+        lives.append((live, final))
+        metas.append({'stream': 'memoize-live', 'seed': R.seed, 'i': i, 'nops': nops, 'nkeys': nkeys})
+        R.count(('memoize-live', R.seed, i), nontrivial=any(o[0] != 1 for o in ops) and any(o[0] == 1 for o in ops), stream='memoize-live', ml_long=long)
+    if R.model_available:
+        outs = R.model(lines)
+        nbad = 0
+        for (live, final), o, meta in zip(lives, outs, metas):
+            bad = None
+            if is_err(o) or tag(o) != 1:
+                bad = 'the translated memoize does not run on this history (model answer %r)' % (o,)
+            else:
+                rs, ws, ds = kids(o)
+                got = [('val', kids(r)[0][0]) if tag(r) == 1 else (('exc', 'ValueError') if tag(r) == 2 and kids(r)[0][0] == 9 else ('other', tag(r))) for r in kids(rs)]
+                if got != live:
+                    j = [a != b for a, b in zip(got, live)].index(True) if len(got) == len(live) else -1
+                    bad = 'call %d: the decorator gives %r, the translated wrapper %r' % (j, live[j] if j >= 0 else len(live), got[j] if j >= 0 else len(got))
+                else:
+                    lens = [d[0] for d in kids(ds)]
+                    for (n_live, same), w in zip(final, kids(ws)):
+                        cell, cache = kids(w)[0][0], kids(w)[1][0]
+                        n_model = lens[cache] if 0 <= cache < len(lens) else -1
+                        if n_live != n_model:
+                            bad = 'entries behind __memoize_cache at the end: live %d, translated %d' % (n_live, n_model)
+                        elif same is not None and same != (cell == cache):
+                            bad = 'closure dict is the __memoize_cache dict: live %r, translated %r' % (same, cell == cache)
+            if bad and nbad < 3:
+                nbad += 1
+                R.fail('correspondence', meta, bad)
+    R.stream('memoize-live', cases=ncases, exhaustive=False,
+             bound='1-3 functions decorated with the live memoize; 3-25 operations over <= 5 keys, and (every third case) 200-900 operations over 140 / 300 / 600 keys '
+                   'mostly new ones in order; calls with a hashable key / an unhashable positional argument / an unhashable keyword value, the function raising in 7%, '
+                   'clear_cache(f), clear_cache(undecorated), clear_cache on all; results and final dict sizes / identity compared with the translated program')
+
+
 def run(R):
     R.rule = ('a case = a world (seeded) + a history of evaluation requests and mutations; non-trivial when it has at least one mutation and one '
               'request; distinct = distinct (world, history)')
@@ -1779,6 +2126,8 @@ def run(R):
     stream_presentation(R)
     stream_profile(R)
     stream_frb(R)
+    stream_manykeys(R)
+    stream_memoize_live(R)
     C1.clear_all_caches()
 
 
@@ -1818,6 +2167,10 @@ def replay(R, case):
         bad, corr = prof_history(case['seed'], case['i'], case['first_read'], [tuple(o) for o in case['ops']])
         out['oracle'] = [bad] if bad else []
         out['correspondence'] = [corr] if corr else []
+        out['violates'] = bool(bad)
+    elif case.get('stream') == 'manykeys':
+        bad, _ = mk_history(case['seed'], case['i'], case['params'])
+        out['oracle'] = [bad] if bad else []
         out['violates'] = bool(bad)
     else:
         out['note'] = 're-run the stream: ./check C05 --tier quick'
